@@ -216,11 +216,19 @@ var preds = []string{"k < 10", "k >= 110", "k == 105", "s == \"a\"", "v == 1", "
 
 var formats = []string{"zng", "zson", "zjson", "json", "csv"}
 
+var kindSlots = []string{"query", "load", "query", "lateerr", "delete", "deletewhere", "compact", "query", "branch", "merge", "revert", "vectors", "misc", "createpool", "load", "query"}
+
+var loadVias = []string{"api", "zson", "zng", "json", "csv", "zjson", "vng", "auto", "api", "csv", "json", "vng", "zjson", "auto", "zng", "zson"}
+
+var lateQueries = []string{"from {P}@{B}", "from {P}@{B} | yield s", "from {P}@{B}", "from {P}@{B} | put x:=1", "from {P}@{B} | sort this", "from {P}@{B} | count()", "from {P}@{B} | k >= 0", "from {P}@{B}"}
+
 func genRaws(t *rapid.T) []Raw {
-	n := rapid.SampledFrom([]int{0, 1, 1, 2, 2, 3}).Draw(t, "nraw")
+	n := rapid.SampledFrom([]int{2, 1, 3, 0, 2, 1}).Draw(t, "nraw")
 	var out []Raw
 	for i := 0; i < n; i++ {
-		out = append(out, Raw{Format: rapid.SampledFrom(formats).Draw(t, "fmt"), Ctrl: rapid.Bool().Draw(t, "ctrl")})
+		// (index draws are biased towards the first entries; rotate by the position to even this out)
+		f := formats[(rapid.IntRange(0, len(formats)-1).Draw(t, "fmt")+i*2)%len(formats)]
+		out = append(out, Raw{Format: f, Ctrl: rapid.Bool().Draw(t, "ctrl")})
 	}
 	return out
 }
@@ -243,7 +251,7 @@ func genQuery(t *rapid.T, op *Op) {
 
 func genCase(t *rapid.T) Case {
 	c := Case{
-		Parallel:    rapid.SampledFrom([]int{0, 1, 1, 1, 2}).Draw(t, "par"),
+		Parallel:    rapid.SampledFrom([]int{0, 1, 1, 1, 2, 2}).Draw(t, "par"),
 		BatchValues: rapid.SampledFrom([]int{1, 2, 3, 100}).Draw(t, "batchvalues"),
 	}
 	maxOps, maxBatch := 12, 8
@@ -271,31 +279,37 @@ func genCase(t *rapid.T) Case {
 			Pool:   rapid.IntRange(0, 3).Draw(t, "pool"),
 			Branch: rapid.IntRange(0, 3).Draw(t, "branch"),
 		}
-		k := rapid.IntRange(0, 49).Draw(t, "opkind")
+		// rapid's integer draws are biased towards small values (slot 0/1 ~14% each, 2/3 ~7%, 4..7 ~5.5%, 8..15 ~4%)
+		kind := kindSlots[rapid.IntRange(0, len(kindSlots)-1).Draw(t, "opkind")]
 		if i == 0 {
-			k = 0
+			kind = "createpool"
 		} else if i <= 2 {
-			k = 5
+			kind = "load"
 		}
-		switch {
-		case k <= 0:
-			op.Kind = "createpool"
+		if kind == "misc" {
+			kind = rapid.SampledFrom([]string{"vacuum", "renamepool", "dropbranch", "droppool", "vacuum", "dropbranch"}).Draw(t, "misc")
+		}
+		if kind == "vectors" {
+			kind = rapid.SampledFrom([]string{"addvec", "delvec", "addvec"}).Draw(t, "vec")
+		}
+		op.Kind = kind
+		switch kind {
+		case "createpool":
 			op.Key = rapid.SampledFrom([]string{"k", "k", "k", "s", "this", "n.a"}).Draw(t, "key")
 			op.Desc = rapid.Bool().Draw(t, "desc")
-			op.Thresh = rapid.SampledFrom([]int64{0, 40, 40, 100}).Draw(t, "thresh")
-			op.Stride = rapid.SampledFrom([]int{0, 1, 1, 1, 16}).Draw(t, "stride")
-			op.Dup = i > 0 && rapid.IntRange(0, 5).Draw(t, "dup") == 0
-		case k <= 14:
-			op.Kind = "load"
+			op.Thresh = rapid.SampledFrom([]int64{40, 0, 40, 100}).Draw(t, "thresh")
+			op.Stride = rapid.SampledFrom([]int{1, 0, 1, 16}).Draw(t, "stride")
+			op.Dup = i > 0 && rapid.IntRange(0, 5).Draw(t, "dup") == 5
+		case "load":
 			op.Batch = rapid.IntRange(0, nb-1).Draw(t, "batch")
-			op.Via = rapid.SampledFrom([]string{"api", "api", "zng", "zson", "zjson", "json", "csv", "vng", "auto"}).Draw(t, "via")
-			op.Meta = rapid.IntRange(0, 3).Draw(t, "meta") == 0
-			bad := rapid.IntRange(0, 19).Draw(t, "bad")
+			op.Via = rapid.SampledFrom(loadVias).Draw(t, "via")
+			op.Meta = rapid.IntRange(0, 3).Draw(t, "meta") == 3
+			bad := rapid.SampledFrom([]string{"", "", "", "", "tail", "", "", "", "", "", "meta", "", "", "", "", "tail"}).Draw(t, "bad")
 			if i <= 2 {
-				bad = 9
+				bad = ""
 			}
 			switch bad {
-			case 0, 1:
+			case "tail":
 				if op.Via != "api" {
 					op.Bad = "tail"
 					op.Cut = rapid.IntRange(2, 8).Draw(t, "cut")
@@ -304,62 +318,41 @@ func genCase(t *rapid.T) Case {
 					op.Bad = "reader"
 					op.Cut = rapid.IntRange(0, 3).Draw(t, "cut")
 				}
-			case 2:
+			case "meta":
 				op.Bad = "meta"
 			}
-		case k <= 17:
-			op.Kind = "delete"
+		case "delete":
 			op.Pick = rapid.SliceOfN(rapid.IntRange(0, 7), 1, 3).Draw(t, "pick")
-			op.Stale = rapid.IntRange(0, 7).Draw(t, "stale") == 0
-		case k <= 20:
-			op.Kind = "deletewhere"
+			op.Stale = rapid.IntRange(0, 7).Draw(t, "stale") == 7
+		case "deletewhere":
 			op.Pred = rapid.SampledFrom(preds).Draw(t, "pred")
-		case k <= 23:
-			op.Kind = "compact"
+		case "compact":
 			op.Pick = rapid.SliceOfN(rapid.IntRange(0, 7), 2, 4).Draw(t, "pick")
 			op.Vectors = rapid.Bool().Draw(t, "vec")
-		case k == 24:
-			op.Kind = "addvec"
+		case "addvec", "delvec":
 			op.Pick = rapid.SliceOfN(rapid.IntRange(0, 7), 1, 2).Draw(t, "pick")
-		case k == 25:
-			op.Kind = "delvec"
-			op.Pick = rapid.SliceOfN(rapid.IntRange(0, 7), 1, 2).Draw(t, "pick")
-		case k == 26:
-			op.Kind = "vacuum"
+		case "vacuum":
 			op.Dry = rapid.Bool().Draw(t, "dry")
-		case k <= 28:
-			op.Kind = "branch"
+		case "branch":
 			op.Other = rapid.IntRange(0, 3).Draw(t, "src")
 			op.At = rapid.SampledFrom([]int{0, 0, 0, 1, 2}).Draw(t, "at")
-			op.Dup = rapid.IntRange(0, 7).Draw(t, "dup") == 0
-		case k == 29:
-			op.Kind = "dropbranch"
-			if rapid.IntRange(0, 5).Draw(t, "dropmain") == 0 {
+			op.Dup = rapid.IntRange(0, 7).Draw(t, "dup") == 7
+		case "dropbranch":
+			if rapid.IntRange(0, 5).Draw(t, "dropmain") == 5 {
 				op.Pick = []int{0} // allow dropping main
 			}
-		case k <= 31:
-			op.Kind = "merge"
+		case "merge":
 			op.Other = rapid.IntRange(0, 3).Draw(t, "into")
-		case k == 32:
-			op.Kind = "revert"
+		case "revert":
 			op.At = rapid.SampledFrom([]int{0, 0, 1, 2, 3}).Draw(t, "at")
-		case k == 33:
-			op.Kind = "renamepool"
-			op.Dup = rapid.IntRange(0, 5).Draw(t, "dup") == 0
-		case k == 34:
-			op.Kind = "droppool"
-			if rapid.IntRange(0, 2).Draw(t, "reallydrop") != 0 {
-				op.Kind = "query"
-				genQuery(t, &op)
-			}
-		case k <= 38:
-			op.Kind = "lateerr"
-			op.Pick = []int{rapid.SampledFrom([]int{0, 1, 2, 7, 7, 7}).Draw(t, "pick")}
-			q := rapid.SampledFrom([]string{"from {P}@{B}", "from {P}@{B}", "from {P}@{B}", "from {P}@{B} | yield s", "from {P}@{B} | sort this", "from {P}@{B} | count()", "from {P}@{B} | k >= 0"}).Draw(t, "lq")
-			op.Query = q
+		case "renamepool":
+			op.Dup = rapid.IntRange(0, 5).Draw(t, "dup") == 5
+		case "droppool":
+		case "lateerr":
+			op.Pick = []int{rapid.SampledFrom([]int{7, 7, 0, 7, 1, 7}).Draw(t, "pick")}
+			op.Query = rapid.SampledFrom(lateQueries).Draw(t, "lq")
 			op.Raws = genRaws(t)
-		default:
-			op.Kind = "query"
+		case "query":
 			op.Other = rapid.IntRange(0, 3).Draw(t, "p2")
 			genQuery(t, &op)
 		}
@@ -426,6 +419,7 @@ type mpool struct {
 	id       [2]ksuid.KSUID
 	branches []string
 	key      string
+	desc     bool
 }
 
 type runner struct {
@@ -464,6 +458,7 @@ type objState struct {
 	vector bool
 	path   string // file path of the sequence object
 	minVal zed.Value
+	seq    string // values in stored order
 }
 
 type branchState struct {
@@ -631,12 +626,15 @@ func (r *runner) inspectBranch(si int, engine storage.Engine, pool *lake.Pool, t
 				r.objVals[si][o.ID] = vals
 			}
 		}
-		var kb strings.Builder
-		for _, v := range vals {
-			kb.WriteString(oracle.Key(v))
-			kb.WriteByte(0xff)
+		// Values are compared as a multiset: the order of values with equal pool keys inside an object depends on
+		// object ids (merge tie-breaks), which legitimately differ between two lakes (tie order is C14's subject).
+		keys := make([]string, len(vals))
+		for i, v := range vals {
+			keys[i] = oracle.Key(v)
 		}
-		os.sig = fmt.Sprintf("count=%d min=%s max=%s size=%d vector=%v %s values=%x", o.Count, os.min, os.max, o.Size, os.vector, unreadable, kb.String())
+		os.seq = strings.Join(keys, "\xff")
+		sort.Strings(keys)
+		os.sig = fmt.Sprintf("count=%d min=%s max=%s size=%d vector=%v %s values=%x", o.Count, os.min, os.max, o.Size, os.vector, unreadable, strings.Join(keys, "\xff"))
 		bs.objects = append(bs.objects, os)
 	}
 	sort.SliceStable(bs.objects, func(i, j int) bool { return bs.objects[i].sig < bs.objects[j].sig })
@@ -672,7 +670,9 @@ func short(s string) string {
 }
 
 // diffStates returns "" when both lakes hold the same content (ids and timestamps aside).
-func diffStates(a, b *lakeState) string {
+func diffStates(a, b *lakeState) string { return diffStatesNote(a, b, nil) }
+
+func diffStatesNote(a, b *lakeState, note func(string)) string {
 	if len(a.pools) != len(b.pools) {
 		return fmt.Sprintf("direct lake has %d pools, served lake has %d", len(a.pools), len(b.pools))
 	}
@@ -710,6 +710,9 @@ func diffStates(a, b *lakeState) string {
 			for k := range ba.objects {
 				if ba.objects[k].sig != bb.objects[k].sig {
 					return fmt.Sprintf("%s: object %d (in content order) differs: direct {%s}, served {%s}", where, k, short(ba.objects[k].sig), short(bb.objects[k].sig))
+				}
+				if note != nil && ba.objects[k].seq != bb.objects[k].seq {
+					note("state:object-tie-order-differs")
 				}
 			}
 		}
@@ -1260,7 +1263,7 @@ func (r *runner) step(step int, op Op, before [2]*lakeState) *vt.Failure {
 			return f
 		}
 		if ok {
-			r.pools = append(r.pools, &mpool{name: name, alive: true, id: ids, branches: []string{"main"}, key: op.Key})
+			r.pools = append(r.pools, &mpool{name: name, alive: true, id: ids, branches: []string{"main"}, key: op.Key, desc: op.Desc})
 			r.serviceMutations++
 		}
 	case "renamepool":
@@ -1694,7 +1697,17 @@ func (r *runner) lateErr(step int, op Op, p *mpool, branch string, before [2]*la
 		if i >= len(objs) {
 			i = len(objs) - 1
 		}
+		if p.desc {
+			i = len(objs) - 1 - i // scan order of a descending pool
+		}
 		paths[si] = objs[i].path
+		if si == 0 {
+			var rs []string
+			for _, o := range objs {
+				rs = append(rs, o.min+".."+o.max)
+			}
+			r.debugf("step %d lateerr: parallelism %d, corrupting object %d of %v", step, r.c.Parallel, i, rs)
+		}
 	}
 	for si := 0; si < 2; si++ {
 		b, err := os.ReadFile(paths[si])
@@ -1785,6 +1798,7 @@ func runCase(c Case) *vt.Outcome {
 	o.Label(fmt.Sprintf("parallelism:%d", c.Parallel), fmt.Sprintf("batch-values:%d", c.BatchValues))
 	steps := 0
 	for i, op := range c.Ops {
+		o.Label("op:" + op.Kind)
 		f := r.step(i, op, before)
 		if o.Skip != "" {
 			return o
@@ -1807,7 +1821,7 @@ func runCase(c Case) *vt.Outcome {
 			o.Label("state:unreadable-both")
 			break
 		}
-		if d := diffStates(after[0], after[1]); d != "" {
+		if d := diffStatesNote(after[0], after[1], func(l string) { o.Label(l) }); d != "" {
 			if op.Kind == "load" && op.Bad == "reader" {
 				// classify: did the service commit the values delivered before the reader failed?
 				if f := r.classifyReaderPrefix(i, op, before, after, d); f != nil {
